@@ -11,6 +11,10 @@ type Violation struct {
 	Expected string `json:"expected"` // what the oracle demanded
 	Observed string `json:"observed"` // what the implementation did
 	Build    string `json:"build"`    // instr | plain
+	// replay coordinates: the case index in the deterministic enumeration of the check
+	CaseIndex int64  `json:"case_index"`
+	Tier      string `json:"tier"`
+	Seed      int64  `json:"seed"`
 }
 
 // Result is what one worker reports.
